@@ -2,6 +2,16 @@ import gfapy
 
 class Validation:
 
+  def _validate_record_type_specific_info(self):
+    "Checks that the begin position is not larger than the end position"
+    for pfx in ["s", "f"]:
+      beg = gfapy.posvalue(self.get(pfx+"_beg"))
+      end = gfapy.posvalue(self.get(pfx+"_end"))
+      if beg > end:
+        raise gfapy.ValueError(
+            "Fragment: {}\n".format(str(self))+
+            "{0}_beg > {0}_end: {1} > {2}".format(pfx, beg, end))
+
   def validate_positions(self):
     "Checks that positions suffixed by $ are the last position of segments"
     if self.is_connected():
